@@ -694,7 +694,10 @@ class Funnel:
         rc, out, err = self.run([self.rd, "-d", img2])
         if self.crashed(rc):
             return self.add("sane_describe", "accept" if sane else "reject", name, sane, "crash rc=%d" % rc, False, err)
-        names = [l.split()[1] for l in out.splitlines() if l.startswith(b"file ")]
+        names = [l.split()[1] for l in out.splitlines() if l.startswith(b"file ") and len(l.split()) > 1]
+        partial = [l for l in out.splitlines() if len(l.split()) < 5]       # a refused name must not be half printed either
+        if partial:
+            return self.add("sane_describe", "accept" if sane else "reject", name, "complete lines only", "truncated output line(s) %r rc=%d" % (partial, rc), False, err)
         if sane:
             self.add("sane_describe", "accept", name, [name], names if rc == 0 else "rc=%d" % rc, rc == 0 and names == [name], err)
         else:
